@@ -56,6 +56,7 @@ FAMILY = {
     'int-to-float32': 'fold/int-to-float-double-rounding',
     'f-suffix': 'fold/float-literal-f-suffix-not-rounded',
     'float-cond': 'fold/float-condition-not-folded',
+    'neg-fraction-to-unsigned': 'fold/float-to-unsigned-negative-fraction-rejected',
 }
 
 
@@ -194,8 +195,8 @@ def rejtext(st_err):
     return 'rejected (status %d: %s)' % (st, err.decode(errors='replace').strip().split('error: ')[-1][:90])
 
 
-def run_cases(cases, tgt, targets, full=True):
-    """observe every case in every context on every target;
+def run_cases(cases, tgt, targets, full=True, only=None):
+    """observe every case in every context (or only the contexts named in `only`) on every target;
     -> (case index -> [(ctx, target, observed text, observed image or None)], stats)"""
     stats = {'runs': 0, 'transitions': 0, 'ctx': {}, 'expected_reject': 0, 'undefined_nocrash': 0}
     mism = {}
@@ -208,12 +209,15 @@ def run_cases(cases, tgt, targets, full=True):
         stats['ctx'][ctx] = stats['ctx'].get(ctx, 0) + n
         stats['transitions'] += n
 
+    def want(ctx):
+        return only is None or ctx in only
+
     for target in targets:
         R = Runner(target)
         ok = [c for c in cases if c.kind == 'ok']
         allctx = full and target in FULL_CTX_TARGETS
         # -- static initialiser -------------------------------------------------------------------------
-        items = [(c.i, '%s = %s;\n' % (M.cdecl(c.type, 'v%d' % c.i), c.src)) for c in ok if c.ctxs is None or 'data' in c.ctxs]
+        items = [(c.i, '%s = %s;\n' % (M.cdecl(c.type, 'v%d' % c.i), c.src)) for c in ok if (c.ctxs is None or 'data' in c.ctxs) and want('data')]
         data, rej = R.many(items)
         for i, _ in items:
             c = byi[i]
@@ -224,16 +228,16 @@ def run_cases(cases, tgt, targets, full=True):
             d = data.get('$v%d' % i)
             img, rel = ilparse.data_image(d) if d is not None else (b'', [1])
             if rel or len(img) != M.sizeof(c.type):
-                bad(c, 'data', target, 'no plain data object of %d bytes emitted' % M.sizeof(c.type))
+                bad(c, 'data', target, 'no plain data object of %d bytes emitted (%d bytes: %s)' % (M.sizeof(c.type), len(img), img[:8].hex()), img[:8])
             elif not same_image(c.type, c.value, img):
                 bad(c, 'data', target, vdesc(decode(c.type, img, tgt)), img)
         # -- thread-local initialiser, type of the folded expression --------------------------------------
         if full:
             items = []
             for c in ok:
-                if c.ctxs is None or 'type' in c.ctxs:
+                if (c.ctxs is None or 'type' in c.ctxs) and want('type'):
                     items.append(('y%d' % c.i, 'int y%d = _Generic(%s, %s: 1, default: 2);\n' % (c.i, c.src, M.cname(c.etype))))
-                if allctx and c.ctxs is None and c.i not in mism:
+                if allctx and c.ctxs is None and (c.i not in mism or only) and want('thread'):
                     items.append(('t%d' % c.i, '_Thread_local %s = %s;\n' % (M.cdecl(c.type, 't%d' % c.i), c.src)))
             data, rej = R.many(items)
             for key, _ in items:
@@ -250,7 +254,7 @@ def run_cases(cases, tgt, targets, full=True):
                     bad(c, ctx, target, 'thread-local object missing or holding another value')
         # -- _Static_assert((E) == V) ------------------------------------------------------------------
         items = [(c.i, '_Static_assert(%s, "");\n' % eqtext(c.src, c.etype, c.evalue, tgt)) for c in ok
-                 if c.ctxs is None or 'assert' in c.ctxs]
+                 if (c.ctxs is None or 'assert' in c.ctxs) and want('assert')]
         _, rej = R.many(items)
         count('assert', len(items))
         for i, _ in items:
@@ -258,33 +262,33 @@ def run_cases(cases, tgt, targets, full=True):
                 bad(byi[i], 'assert', target, rejtext(rej[i]))
         # -- contexts that need an integer constant expression -----------------------------------------
         if allctx:
-            items, singles, want = [], [], {}
+            items, singles, exp = [], [], {}
             for c in ok:
                 if c.ctxs is not None:
                     continue
                 i = c.i
                 if not M.is_integer(c.etype):
                     items.append(('c%d' % i, 'int c%d = %s ? 11 : 22;\n' % (i, c.src)))
-                    want['c%d' % i] = (11 if c.evalue != 0 else 22).to_bytes(4, 'little')
+                    exp['c%d' % i] = (11 if c.evalue != 0 else 22).to_bytes(4, 'little')
                     continue
                 v, t = c.evalue, M.promote(c.etype, tgt)
                 lo, hi = M.int_range(t, tgt)
                 items.append(('c%d' % i, 'int c%d = %s ? 11 : 22;\n' % (i, c.src)))
-                want['c%d' % i] = (11 if v else 22).to_bytes(4, 'little')
+                exp['c%d' % i] = (11 if v else 22).to_bytes(4, 'little')
                 if 1 <= v <= 1 << 40:
                     items.append(('a%d' % i, 'char a%d[%s];\n' % (i, c.src)))
-                    want['a%d' % i] = v
+                    exp['a%d' % i] = v
                 elif v < 0:
                     singles.append((c, 'array', 'char a[%s];\n' % c.src))
                 if -(1 << 31) <= v < 1 << 31:
                     items.append(('g%d' % i, 'enum { e%d = %s }; long long g%d = e%d;\n' % (i, c.src, i, i)))
-                    want['g%d' % i] = (v & (1 << 64) - 1).to_bytes(8, 'little')
+                    exp['g%d' % i] = (v & (1 << 64) - 1).to_bytes(8, 'little')
                 if 1 <= v <= 64:
                     items.append(('b%d' % i, 'struct { unsigned long long b : %s; } b%d = { -1 };\n' % (c.src, i)))
-                    want['b%d' % i] = ((1 << v) - 1).to_bytes(8, 'little')
+                    exp['b%d' % i] = ((1 << v) - 1).to_bytes(8, 'little')
                 if v in (0, 1, 2, 4, 8, 16):
                     items.append(('l%d' % i, '_Alignas(%s) char l%d = 1;\n' % (c.src, i)))
-                    want['l%d' % i] = ('align', max(v, 1))
+                    exp['l%d' % i] = ('align', max(v, 1))
                 other = v + 1 if v < hi else v - 1
                 sw = '(%s)0' % M.cname(t)
                 items.append(('f%d' % i, 'void f%d(void) { switch (%s) { case %s: case %s: ; } }\n' % (i, sw, c.src, M.c_value(t, other, tgt))))
@@ -295,8 +299,20 @@ def run_cases(cases, tgt, targets, full=True):
                     items.append(('s%d' % i, '_Static_assert(%s, "");\n' % c.src))
                 else:
                     singles.append((c, 'assert-direct', '_Static_assert(%s, "");\n' % c.src))
-            data, rej = R.many(items)
             names = {'c': 'cond', 'a': 'array', 'g': 'enum', 'b': 'width', 'l': 'alignas', 'f': 'case', 's': 'assert-direct'}
+            if only is not None:
+                items = [it for it in items if names[it[0][0]] in only]
+                singles = [x for x in singles if x[1] + '-reject' in only]
+            # floating conditions are known to be refused: keep them apart from the integer ones
+            fl = [it for it in items if it[0][0] == 'c' and not M.is_integer(byi[int(it[0][1:])].etype)]
+            flk = {it[0] for it in fl}
+            items = [it for it in items if it[0] not in flk]
+            data, rej = R.many(items)
+            if fl:
+                d2, r2 = R.many(fl)
+                data.update(d2)
+                rej.update(r2)
+                items = items + fl
             for key, _ in items:
                 ctx, c = names[key[0]], byi[int(key[1:])]
                 count(ctx)
@@ -306,7 +322,7 @@ def run_cases(cases, tgt, targets, full=True):
                 if key[0] in 'fs':
                     continue
                 d = data.get('$' + key)
-                w = want[key]
+                w = exp[key]
                 if d is None:
                     bad(c, ctx, target, 'object not emitted')
                     continue
@@ -331,6 +347,8 @@ def run_cases(cases, tgt, targets, full=True):
             if c.kind == 'ok' or (c.ctxs is not None and 'data' not in c.ctxs):
                 continue
             if c.kind == 'invalid':
+                if not want('reject'):
+                    continue
                 stats['expected_reject'] += 1
                 count('reject')
                 r = R.compile(PRELUDE + 'double v = %s;\n' % c.src)
@@ -341,7 +359,7 @@ def run_cases(cases, tgt, targets, full=True):
             div0 = c.kind == 'undef:div0'
             for ctx, text in (('data', 'long long v = %s;\n' % c.src), ('assert', '_Static_assert((%s) == 0 || 1, "");\n' % c.src),
                               ('array', 'char a[((%s) & 1) + 1];\n' % c.src)):
-                if ctx == 'array' and not (allctx and M.is_integer(M.type_of(c.ast, tgt))):
+                if (ctx == 'array' and not (allctx and M.is_integer(M.type_of(c.ast, tgt)))) or not want('undef-' + ctx):
                     continue
                 count('undef-' + ctx)
                 r = R.compile(PRELUDE + text)
@@ -396,7 +414,8 @@ def strict_family(c, obs, tgt):
             (_, lt, lv), (_, rt, rv) = a[2], a[3]
             for name, ltruth in (('logical', lv != 0), ('logical-bits', M.carrier(lt, lv, tgt) != 0)):
                 sel = (a[3] if ltruth else a[2]) if a[1] == '&&' else (a[2] if ltruth else a[3])
-                if dimg == M.carrier(sel[1], sel[2], tgt).to_bytes(8, 'little')[:4]:
+                # defect model: the selected operand itself (in its own type) is emitted in place of the int result
+                if dimg is not None and dimg == M.image(sel[1], sel[2], tgt):
                     return name
             return None
         return 'logical'       # nested: no defect model, the trigger decides
@@ -413,8 +432,12 @@ def strict_family(c, obs, tgt):
                 pred = bytes([fv & 0xff])
             return 'to-bool' if dimg == pred else None
         return None
+    if 'neg-fraction-to-unsigned' in c.trig and d == 'rejected':
+        return 'neg-fraction-to-unsigned'
     if 'float-cond' in c.trig:
         return 'float-cond' if d == 'rejected' or obs.get('cond') == 'rejected' else None
+    if c.kind == 'ok' and M.is_float(c.etype) and set(obs) == {'cond'} and obs['cond'] == 'rejected':
+        return 'float-cond'      # the case itself folds; only its use as the condition of ?: is refused
     if 'int-to-float32' in c.trig:
         if c.stratum == 'cast' and c.type == M.FLOAT:
             src = a[2] if a[0] == 'cast' else a
@@ -751,7 +774,9 @@ def _job(spec):
         one.i = 0
         confirmed = []
         for target in sorted({m[1] for m in ms}):
-            m1, _ = run_cases([one], tgt, (target,), full)
+            only = {m[0].replace('div0-', 'undef-') for m in ms if m[1] == target}
+            m1, st1 = run_cases([one], tgt, (target,), full, only)
+            stats['runs'] += st1['runs']
             confirmed += [m for m in m1.get(0, []) if (m[0], m[1]) in {(x[0], x[1]) for x in ms}]
         if not confirmed:
             stats['unconfirmed_on_replay'] = stats.get('unconfirmed_on_replay', 0) + 1
